@@ -7,9 +7,8 @@ Property theorems only; helper lemmas live in `SynKitProofs/SubgraphSearchLemmas
 `SynKitProofs/Match.lean`, `SynKitProofs/GraphAlg.lean`.  `search` is the model of
 `SubgraphSearchEngine.find_subgraph_mappings` (with the repair of DESIGN §6 F9).
 
-The full statement is the conjunction of the theorems below; the only clause that is not proved
-for all inputs is the completeness of the component-aware strategy (`comp_complete`), see the
-note at the end.
+The full statement is the conjunction of the theorems below, including the completeness of the
+component-aware strategy (`comp_complete`, proved at the end).
 -/
 namespace SynKit.SubgraphSearch
 open SynKit.Match SynKit.GraphAlg
@@ -139,17 +138,38 @@ theorem prefilter_spec (cfg : Cfg) (sel : Sel) (H P : LGraph) (hf : cfg.preFilte
   simp only [hf, Bool.true_and, Bool.false_and, Bool.false_eq_true, if_false]
   rfl
 
-/-- The one clause of C06 that is **not proved** (stretch goal `comp_complete`): for
-`strict_cc_count = False`, no limits, and a host with at least as many components as the pattern,
-every monomorphism that separates the pattern components is returned.  It is stated here so that the
-gap is visible; the harness tests it on every generated case by comparing the model's unlimited
-component-aware result with the brute-force filter of `allMonos` (driver field `comp_model_eq_spec`).
-What is missing is the decomposition lemma "a monomorphism restricted to a pattern component is a
-monomorphism into the sub-graph on one host component". -/
+/-- **C06, component-aware strategy, completeness** (statement): for `strict_cc_count = False`, no
+limits, and a host with at least as many components as the pattern, every monomorphism that separates
+the pattern components is returned.  Proved below (`comp_complete`); the harness additionally compares
+the model's unlimited component-aware result with the brute-force filter of `allMonos` on every
+generated case (driver field `comp_model_eq_spec`). -/
 def CompCompleteStatement : Prop :=
   ∀ (sel : Sel) (H P : LGraph), H.WF → P.WF → (comps P).length ≠ 0 → (comps P).length ≤ (comps H).length →
     ∀ m, IsMono sel H P m → DistinctComponents H P m → ∀ thr, (∀ maps ∈ perCc sel H P, maps.length ≤ thr) →
       (compEnum sel H P).length ≤ thr → m ∈ findComp sel H P 0 false thr
+
+/-- **C06, component-aware strategy, completeness.**  A monomorphism maps a (connected) pattern
+component into one host component (`mono_component_image`), its restriction to that component is a
+monomorphism of the two sub-graphs (`restrict_isMono`), hence one of the per-component embeddings
+(`restrict_mem_level`); pattern components going to different host components, the back-tracking
+assembly picks exactly these restrictions and glues them back to `m` (`mem_compEnum_of_mono`). -/
+theorem comp_complete : CompCompleteStatement := by
+  intro sel H P hH hP h0 hle m hm hd thr hthr hlen
+  have hmem := mem_compEnum_of_mono sel H P hH hP m hm hd
+  have h3 : ¬ ((perCc sel H P).any (fun maps => maps.isEmpty) = true) := by
+    rw [List.any_eq_true]
+    rintro ⟨maps, hmaps, he⟩
+    exact perCc_ne_nil_of_mono sel H P hH hP m hm maps hmaps (List.isEmpty_iff.1 he)
+  have h4 : ¬ ((perCc sel H P).any (fun maps => decide (maps.length > thr)) = true) := by
+    rw [List.any_eq_true]
+    rintro ⟨maps, hmaps, he⟩
+    have := hthr maps hmaps
+    simp only [decide_eq_true_eq] at he
+    omega
+  rw [findComp_eq, if_neg h0, if_neg (by omega), if_neg (by simp), if_neg h3, if_neg h4]
+  rw [List.take_of_length_le]
+  · exact hmem
+  · unfold stopLen; simp; omega
 
 /-! ### Non-vacuity
 
@@ -170,6 +190,14 @@ example : search { strategy := .comp, strict := false } exSel exH exP =
 example : search { strategy := .comp, strict := false, maxRes := 1 } exSel exH exP = [[(10, 1), (11, 3)]] := by decide
 example : search { strategy := .comp, strict := true } exSel exH exP = [[(10, 1), (11, 3)], [(10, 2), (11, 3)], [(10, 3), (11, 1)], [(10, 3), (11, 2)]] := by decide
 example : search { strategy := .all, threshold := some 5 } exSel exH exP = [] := by decide
+/-- Non-vacuity of `comp_complete`: its hypotheses hold for `[(10, 1), (11, 3)]` (threshold 5000);
+the decidable ones here, `IsMono` and `DistinctComponents` in the next example. -/
+example : (comps exP).length ≠ 0 ∧ (comps exP).length ≤ (comps exH).length ∧
+    (∀ maps ∈ perCc exSel exH exP, maps.length ≤ 5000) ∧ (compEnum exSel exH exP).length ≤ 5000 ∧
+    [(10, 1), (11, 3)] ∈ allMonos exSel exH exP ∧ [(10, 1), (11, 3)] ∈ findComp exSel exH exP 0 false 5000 := by decide
+example : IsMono exSel exH exP [(10, 1), (11, 3)] ∧ DistinctComponents exH exP [(10, 1), (11, 3)] := by
+  have h := comp_sound exSel exH exP (by decide) (by decide) 0 false 5000 [(10, 1), (11, 3)] (by decide)
+  exact ⟨h.1, h.2.resolve_left (by decide)⟩
 end Examples
 
 end SynKit.SubgraphSearch
